@@ -416,6 +416,7 @@ func TestVerifC05(t *testing.T) {
 			w.Replay(level, s)
 		}
 		c05ReplayWindows(w, tc.client, rp)
+		c05ReplayForms(w, tc.client, rp)
 		return
 	}
 	if cd := os.Getenv("VERIF_CORPUS"); cd != "" {
@@ -430,6 +431,7 @@ func TestVerifC05(t *testing.T) {
 				w.Replay(level, s)
 			}
 			c05ReplayWindows(w, tc.client, fn)
+			c05ReplayForms(w, tc.client, fn)
 		}
 	}
 
@@ -616,6 +618,8 @@ func TestVerifC05(t *testing.T) {
 			c05Window(w, tc.client, validity, skew, first, replay)
 		}
 	}
+	// request-level sequences (op "forms", zz_verif_c05b_test.go)
+	c05Forms(w, tc.client, rng, thorough)
 	t.Logf("C05 iam harness: %d runs, %d goroutine dumps, %d diverged re-executions repeated", w.Runs, w.Dumps, storage.VerifC05Diverged)
 }
 
